@@ -1,15 +1,17 @@
 #!/bin/bash
-# usage: tools/try_mutant.sh <patch.diff> <ID> [<ID> ...]   - apply to /repo, run quick checks, revert
+# usage: tools/try_mutant.sh <patch.diff> <ID> [<ID> ...]
+# applies the patch to a scratch copy of /repo's current tree (FINAM_SRC), runs the quick checks, removes the copy.
+# (equivalent to `git -C /repo apply` + checks + `git -C /repo checkout -- .`, but safe while other runs use /repo)
 set -u
-patch="$1"; shift
-cd /repo || exit 9
-if ! git diff --quiet; then echo "/repo has uncommitted changes"; exit 9; fi
-git apply "$patch" || { echo "patch does not apply"; exit 9; }
-trap 'git -C /repo checkout -- . ' EXIT
+patch="$(realpath "$1")"; shift
+d=/dev/shm/finam-try-$$
+mkdir -p $d && cp -r /repo/src $d/src && cp /repo/.gitignore $d/ 2>/dev/null
+( cd $d && git init -q . && git apply "$patch" ) || { echo "patch does not apply"; rm -rf $d; exit 9; }
 cd /verif
 for id in "$@"; do
-  VERIF_WALL=${VERIF_WALL:-90} ./check "$id" --tier quick > /tmp/mut-$id.out 2>&1
+  FINAM_SRC=$d/src VERIF_WALL=${VERIF_WALL:-90} timeout 600 ./check "$id" --tier quick > /tmp/mut-$id.out 2>&1
   rc=$?
   echo "== $id exit=$rc"
   grep -E "^  violation|^VIOLATION|HARNESS" /tmp/mut-$id.out | cut -c1-260 | head -6
 done
+rm -rf $d
